@@ -773,7 +773,10 @@ class Ctx:
         self._grounding = False
         self.unify_fms = True
         self.fwd_budget = 1500
+        self.sk_installed = set()
+        self._sk_seen = set()
         if parent is not None:
+            self.sk_installed = set(parent.sk_installed)
             parent.ground()
             self.solver.add(parent.solver.assertions())
             self.terms = list(parent.terms)
@@ -829,6 +832,58 @@ class Ctx:
         self.solver.add(fact)
         if len(_LITS) != self._nlits:
             self._literal_axioms()
+        if self.interp.skolems:
+            self.sk_scan(fact)
+
+    # iteration skolems ---------------------------------------------------
+    # A min()/max() evaluated inside an abstracted loop body picks, in iteration j, the element at position W(j) of
+    # its argument list R, for a fresh function W.  Whenever W(a) occurs in a fact or a goal for a new argument a,
+    # the defining facts of the choice are installed for a:  0 <= W(a) < len(R), and for every element x of R at
+    # position i:  key_a(R[W(a)]) <= key_a(x), strictly if i < W(a)  (python returns the first extremal element);
+    # key_a is the key expression of the body with the loop variables taken at iteration a.  Defining W at
+    # iterations that never reach the call is a conservative extension (R is non-empty whenever the facts apply).
+    def sk_scan(self, expr):
+        reg = self.interp.skolems
+        todo = [expr]
+        seen = self._sk_seen
+        found = []
+        while todo:
+            e = todo.pop()
+            i = e.get_id()
+            if i in seen:
+                continue
+            seen.add(i)
+            if z3.is_app(e):
+                if e.num_args() == 1 and e.decl().name() in reg:
+                    found.append(e)
+                todo.extend(e.children())
+            elif z3.is_quantifier(e):
+                todo.append(e.body())
+        for e in found:
+            self.sk_install(reg[e.decl().name()], e.arg(0))
+
+    def sk_install(self, d, a):
+        key = (d["W"].name(), a.get_id())
+        if key in self.sk_installed or a.eq(d["j"]):
+            return
+        self.sk_installed.add(key)
+        t = d["term"]
+        wa = d["W"](a)
+        nonempty = t.length() > 0
+        binds, jv, tmpl, e_ph, i_ph = d["binds"], d["j"], d["tmpl"], d["e_ph"], d["i_ph"]
+        interp = self.interp
+
+        def at_a(x):
+            if binds:
+                x = z3.substitute(x, *binds)
+            return z3.substitute(x, (jv, a))
+
+        def fact(elem, idx):
+            parts = [to_z3(x) for x in interp.elem_parts(elem)]
+            f = z3.substitute(tmpl, *(list(zip(e_ph, parts)) + [(i_ph, to_z3(idx))]))
+            return at_a(f)
+        t.new_member(nonempty, wa)
+        t.all_facts.append((nonempty, fact, "minmax-sk"))
 
     def _literal_axioms(self):
         lits = list(_LITS.items())
@@ -1172,6 +1227,10 @@ class Ctx:
 
     # solving ----------------------------------------------------------
     def check(self, *extra, quick=False):
+        if self.interp.skolems:
+            for e in extra:
+                if z3.is_expr(e):
+                    self.sk_scan(e)
         self.ground()
         t0 = time.time()
         if quick:
@@ -1301,6 +1360,8 @@ class _Scope:
         self.nlits = ctx._nlits
         self.budget = ctx.fwd_budget
         self.rank_terms = list(ctx.__dict__.get("rank_terms", []))
+        self.sk_installed = set(ctx.sk_installed)
+        self.sk_seen = set(ctx._sk_seen)
         return self
 
     def __exit__(self, *exc):
@@ -1318,6 +1379,8 @@ class _Scope:
         ctx.fwd_budget = self.budget
         if "rank_terms" in ctx.__dict__:
             ctx.rank_terms = self.rank_terms
+        ctx.sk_installed = self.sk_installed
+        ctx._sk_seen = self.sk_seen
         return False
 
 
